@@ -353,4 +353,33 @@ example : WfVal ⟨-1, some [57, 57, 57], true⟩ ∧ lyb ⟨-1, some [57, 57, 5
   refine ⟨⟨by decide, by decide, ?_⟩, by decide⟩
   intro f hf; cases hf; exact ⟨by decide, by decide⟩
 
+/-- With the lower bound of the zone hour in place (candidate repair F416) every value the text store accepts is well-formed: the instant
+    fits 64 bits (no signed overflow in `t -= shift`), the fraction is a non-empty digit string.  (On the pinned tree the instant is
+    bounded only through the pattern, which the model checks last; not proved here.) -/
+theorem dt_store_wf (c : ZoneCfg) (hc : c.lower = true) (hints : Nat) (s : Bytes) (v : DtVal) (h : storeWith c hints s = .ok v) : WfVal v := by
+  obtain ⟨z, sh, _, hz, ht, _⟩ := store_ok_parts h
+  have hr := (dt_accept_iff c hints s).mp ⟨v, h⟩
+  obtain ⟨_, _, r1, r2, r3, r4, r5, r6, r7, _⟩ := hr
+  have a1 := atoi_range (cstr s)
+  have a4 := atoi_range ((cstr s).drop 11)
+  have a5 := atoi_range ((cstr s).drop 14)
+  have a6 := atoi_range ((cstr s).drop 17)
+  have hb := timegm_bound (readTm (cstr s)) a1 ⟨r1, r2⟩ ⟨r3, r4⟩ ⟨a4.1, r5⟩ ⟨a5.1, r6⟩ ⟨a6.1, r7⟩
+  obtain ⟨a, b⟩ := c
+  simp only at hc
+  subst hc
+  have hs := zoneShift_bound a z sh hz
+  exact ⟨by omega, by omega, store_frac_wf h⟩
+
+/-- a value accepted by the text store survives the LYB round trip (with the repair F416; on the pinned tree for every accepted value
+    whose instant fits 64 bits) -/
+theorem dt_lyb_roundtrip_stored (c : ZoneCfg) (hints : Nat) (s : Bytes) (v : DtVal) (h : storeWith c hints s = .ok v)
+    (ht : c.lower = true ∨ (-(2 ^ 63 : Int) ≤ v.time ∧ v.time < 2 ^ 63)) : unlyb (lyb v) = .ok v := by
+  rcases ht with hc | ht
+  · exact unlyb_lyb v (dt_store_wf c hc hints s v h)
+  · exact unlyb_lyb v ⟨ht.1, ht.2, store_frac_wf h⟩
+
+example : storeWith zoneRepaired H wFrac5 = .ok ⟨1577836800, some [53], false⟩ ∧ zoneRepaired.lower = true ∧
+    lyb ⟨1577836800, some [53], false⟩ = [0, 225, 11, 94, 0, 0, 0, 0, 0, 53] := by decide
+
 end LyModel.Props.C03Dt
